@@ -892,6 +892,7 @@ pub fn parts() -> Vec<Box<dyn PartDyn>> {
             enumerate: None,
             shrink_budget: 300,
             confirm_runs: 2,
+            fuzz: None,
         }),
         Box::new(Part::<ProbeCase> {
             name: "collector",
@@ -903,6 +904,7 @@ pub fn parts() -> Vec<Box<dyn PartDyn>> {
             enumerate: None,
             shrink_budget: 2000,
             confirm_runs: 1,
+            fuzz: Some(crate::collector::fuzz_probe),
         }),
     ]
 }
